@@ -140,7 +140,7 @@ def cases(tier, seed, shard, nshards):
                     yield {"text": base, "pre": pre, "stack": [[name, kw]], "fmt": None}
                 idx += 1
     r = rng_for(seed, shard, "c07")
-    for i in range(tier_pick(tier, 5000, 150000) // nshards):
+    for i in range(tier_pick(tier, 8000, 600000) // nshards):
         mode = i % 4
         if mode == 0:
             text, _ = grammar.document(r, grammar.Opts(max_items=5, min_items=1, entry_keys=r.choice([None, ["a", "b"]]), field_keys=r.choice([None, ["t", "u", "author"]])))
